@@ -4,6 +4,7 @@
 
 #include <errno.h>
 #include <stdlib.h>
+#include <ctype.h>
 #include <limits.h>
 #include <float.h>
 #include <string.h>
@@ -234,6 +235,12 @@ extern MPT_INTERFACE(metatype) *_mpt_iterator_factor(MPT_STRUCT(value) *val)
 				fd.fact = fd.base;
 			}
 			if ((c = mpt_string_nextvis(&str)) != ')') {
+				errno = EINVAL;
+				return 0;
+			}
+			/* nothing but white space may follow */
+			while (isspace(*(++str)));
+			if (*str) {
 				errno = EINVAL;
 				return 0;
 			}
